@@ -436,6 +436,11 @@ func stressRound(seed int64, workers, opsPer int, withCap bool) (fails []string)
 			}()
 			r := rand.New(rand.NewSource(seed*131 + int64(w)))
 			for k := 0; k < opsPer; k++ {
+				if seed%4 == 2 && r.Intn(16) == 0 {
+					// a worker that "makes sure" the mutex is on: enabling it again changes nothing,
+					// in particular it does not swap the lock under the goroutine holding it
+					s.SetMutex()
+				}
 				switch r.Intn(10) {
 				case 0, 1, 2:
 					if withCap { // Push does not say whether the value was stored: use Insert, which does
